@@ -485,6 +485,18 @@ theorem C03_encode_valid_fails_at_scope_any_false : ¬ validTree dtd (encObj toy
     simp [encObj, encQualDecl, qdeclAnyFalse, encVal, encScope, insertSorted, upperAscii, boolAttr, optAttr, optBoolAttr, E]
   rw [this]; decide +kernel
 
+/-- known finding C03-KF5: an `embedded_object` value other than 'object' / 'instance' (assigned through the setter; the
+    empty string also through the constructor before fix 973b1cd) is written as the EmbeddedObject attribute and is not
+    valid; `shapeObj` (`embOk`) excludes it -/
+theorem C03_encode_valid_fails_at_embedded_object_empty :
+    shapeObj (.prop (.mk "p".toList "string".toList .null false none none none none (some []) [])) = false ∧
+    ¬ validTree dtd (encObj toyCodec (.prop (.mk "p".toList "string".toList .null false none none none none (some []) []))) = true := by
+  refine ⟨by decide +kernel, ?_⟩
+  have : encObj toyCodec (.prop (.mk "p".toList "string".toList .null false none none none none (some []) [])) =
+      E "PROPERTY" [("NAME".toList, "p".toList), ("TYPE".toList, "string".toList), ("EmbeddedObject".toList, [])] [] := by
+    simp [encObj, encProp, encQuals, encVal, optAttr, optBoolAttr, E]
+  rw [this]; decide +kernel
+
 /-- known finding C03-KF2: a scope name outside the seven DSP0201 scopes becomes an undeclared attribute -/
 theorem C03_encode_valid_fails_at_unknown_scope : ¬ validTree dtd (encObj toyCodec (.qdecl qdeclOddScope)) = true := by
   have : encObj toyCodec (.qdecl qdeclOddScope) =
